@@ -3,7 +3,8 @@
 (* loop drives:  Begin -> (AtEnd? ; Deref ; [Write] ; Incr)* -> LoopEnd.                                  *)
 (* The source is a sequence of distinguishable values; the category says how the adaptor got it:          *)
 (* "lvalue" (visited values alias the elements: a Write changes the source), "const", "rvalue" (a         *)
-(* temporary that must stay alive until LoopEnd).                                                         *)
+(* temporary that must stay alive until LoopEnd) and "crvalue" (a const temporary, e.g. the result of a    *)
+(* function declared to return `const T`: still a temporary, still has to stay alive).                     *)
 EXTENDS Naturals, Sequences, FiniteSets, TLC, Json
 
 CONSTANTS MaxLen, Adaptors, Cats,
@@ -24,15 +25,16 @@ Init ==
   /\ pc = "start" /\ pos = 0 /\ visited = <<>> /\ tempAlive = FALSE
 
 N == Len(src)
+Temporary == cat \in {"rvalue", "crvalue"}
 Elem(k) == IF adaptor = "reverse" THEN N + 1 - k ELSE k          \* which source element the k-th step visits
 
 Begin ==
-  /\ pc = "start" /\ pc' = "test" /\ pos' = 1 /\ tempAlive' = (cat = "rvalue")
+  /\ pc = "start" /\ pc' = "test" /\ pos' = 1 /\ tempAlive' = Temporary
   /\ UNCHANGED <<adaptor, cat, src, write, handoff, visited>>
 
 Deref ==            \* the loop variable: (index, value) for enumerate, value for reverse
   /\ pc = "test" /\ pos <= N
-  /\ (cat = "rvalue" => tempAlive)                               \* the temporary is still there
+  /\ (Temporary => tempAlive)                                   \* the temporary is still there
   /\ visited' = Append(visited, [idx |-> (IF adaptor = "enumerate" THEN pos - 1 ELSE 0), val |-> src[Elem(pos)]])
   /\ pc' = "body"
   /\ UNCHANGED <<adaptor, cat, src, write, handoff, pos, tempAlive>>
@@ -61,7 +63,7 @@ VisitsAll ==
           /\ adaptor = "enumerate" => \A k \in 1..N : visited[k].idx = k - 1
 WritesLand == Done /\ write => \A i \in 1..N : src[i] = 10 * i + 1
 NoWritesElsewhere == Done /\ ~write => \A i \in 1..N : src[i] = 10 * i
-TempOutlivesLoop == pc \in {"test", "body", "incr"} /\ cat = "rvalue" => tempAlive
+TempOutlivesLoop == pc \in {"test", "body", "incr"} /\ Temporary => tempAlive
 
 CaseRec == [adaptor |-> adaptor, cat |-> cat, n |-> N, write |-> write, handoff |-> handoff, visited |-> visited, after |-> src]
 Emit == Done => PrintT("CASE " \o ToJson(CaseRec))
